@@ -495,8 +495,10 @@ func genRoutes(r *hx.Rng, hostToks []string, a alpha) []config.Route {
 		if r.Chance(1, 10) {
 			nb = 0
 		}
+		// distinct explicit ports: the candidate list is observed through the per-attempt selector, which (C30)
+		// skips entries denoting an already tried backend; distinct ports keep every entry a distinct backend
 		for j := 0; j < nb; j++ {
-			rt.Backend = append(rt.Backend, renderToks(genTemplateToksFrom(r, 3, false, routeLits))+hx.Pick(r, []string{":25565", ":25566", "", ":1"}))
+			rt.Backend = append(rt.Backend, renderToks(genTemplateToksFrom(r, 3, false, routeLits))+":"+strconv.Itoa(25561+j))
 		}
 		rs = append(rs, rt)
 	}
